@@ -1432,7 +1432,7 @@ class GenScope:
         self.budget -= 1
         deep = ctx['depth'] >= self.max_depth
         flat_only = ctx.get('flat_only')
-        ch = ['read', 'read', 'assign', 'assign', 'privassign', 'private']
+        ch = ['read', 'read', 'assign', 'assign', 'privassign', 'private', 'assignnil']
         if not ctx.get('no_globals'):
             ch += ['gassign', 'gassign', 'setvar', 'getvar']
         if not deep and not flat_only:
@@ -1449,6 +1449,12 @@ class GenScope:
             nm = self.lname()
             ctx.setdefault('bound', set()).add(nm.lower())
             return [('assign', nm, self.fresh_val(), False)]
+        if k == 'assignnil':
+            # nil is a value like any other: the binding stays where it is (a later plain assignment from a nested scope still lands there)
+            self.features.add('assign-nil')
+            nm = self.lname()
+            ctx.setdefault('bound', set()).add(nm.lower())
+            return [('assign', nm, ('nil',), r.random() < 0.25)]
         if k == 'privassign':
             self.features.add('private-assign')
             nm = self.lname()
